@@ -95,7 +95,6 @@ struct Point {
 }
 
 impl Point {
-    #[verifier::external_body]
     fn zero() -> (r: Point)
         ensures wf(r), val4(r.z@) == 0, abs(r) == Pt::Inf
     {
@@ -106,7 +105,6 @@ impl Point {
         }
     }
 
-    #[verifier::external_body]
     fn is_zero(&self) -> (r: bool)
         ensures r == (val4(self.z@) == 0)
     {
@@ -154,7 +152,7 @@ impl Point {
     #[verifier::external_body]
     fn to_affine_point(&self) -> (r: Point)
         requires wf(*self)
-        ensures wf(r), fe(r.z@) == 1, abs(r) == abs(*self),
+        ensures wf(r), fe(r.z@) == 1, val4(self.z@) != 0 ==> abs(r) == abs(*self),
             val4(self.z@) != 0 ==> abs(*self) == (Pt::Aff { x: fe(r.x@), y: fe(r.y@) }),
             val4(self.z@) == 0 ==> fe(r.x@) == 0 && fe(r.y@) == 0
     {
@@ -247,7 +245,6 @@ impl Point {
         }
     }
 
-    #[verifier::external_body]
     fn neg(&self) -> (r: Point)
         requires wf(*self)
         ensures coords_le_p(r), abs(r) == g_neg(abs(*self))
@@ -418,7 +415,6 @@ impl Point {
     r
 }
 
-#[verifier::external_body]
     fn to_jacobi(x: &U256, y: &U256) -> (r: Point)
     requires canon(x@), canon(y@)
     ensures wf(r), r.x@ == x@, r.y@ == y@, fe(r.z@) == 1
